@@ -526,6 +526,14 @@ func c01ExtraEntries(c *Ctx, p *program, g *mon.Graph, outs []string) {
 			}
 		}
 	}
+	// ... and like the graph's constants: an initializer that is not a graph input is not a
+	// default, a caller tensor of that name replaces nothing
+	for _, it := range p.Inits {
+		if !p.Shadow[it.Name] && !isInput[it.Name] && it.T != nil && c.R.Chance(0.5) && len(added) < 5 {
+			feed[it.Name] = c.R.Tensor(it.T.DT, it.T.Shape, gen.FillSmall, 50)
+			added = append(added, it.Name)
+		}
+	}
 	feed["no_such_value"] = c.R.Tensor(ref.F32, []int{2}, gen.FillSmall, 5)
 	bytes := g.Bytes()
 	plain := mon.RunBytes(bytes, p.Feed, outs)
@@ -533,6 +541,6 @@ func c01ExtraEntries(c *Ctx, p *program, g *mon.Graph, outs []string) {
 	c.Eval(2)
 	c.Count("runs-with-extra-map-entries", 1)
 	if d := diffOutcomes(plain, extra); d != "" {
-		c.Violation("program:extra-map-entry-changes-an-output", "caller map entries named %v (values the graph computes) and \"no_such_value\" were added to the feed: %s", added, d)
+		c.Violation("program:extra-map-entry-changes-an-output", "caller map entries named %v (values the graph computes, initializers that are not graph inputs) and \"no_such_value\" were added to the feed: %s", added, d)
 	}
 }
